@@ -14,6 +14,7 @@ import (
 	"fmt"
 	"io"
 	"os"
+	"path/filepath"
 	"sort"
 	"strings"
 	"time"
@@ -258,7 +259,14 @@ func workerMain(args []string) {
 	out := fl.String("out", "", "result prefix")
 	tier := fl.String("tier", "quick", "tier")
 	dump := fl.String("dump", "", "write canonical outputs here (cross-process comparison)")
+	exclude := fl.String("exclude", "", "cell ids to leave out (moq itself crashed on them), comma-separated")
 	fl.Parse(args)
+	skip := map[string]bool{}
+	for _, id := range strings.Split(*exclude, ",") {
+		if id != "" {
+			skip[id] = true
+		}
+	}
 	cells := loadCells(*cellsFile)
 	for i, c := range cells {
 		for _, j := range []int{i + 1, i - 1} {
@@ -274,6 +282,17 @@ func workerMain(args []string) {
 	dumped := map[string]string{}
 	for i := *shard; i < len(cells); i += *nshards {
 		c := cells[i]
+		if skip[c.ID] {
+			continue
+		}
+		// (a stack overflow inside moq cannot be recovered from: the driver says
+		// which cell it is about to touch, and is restarted without it)
+		os.WriteFile(fmt.Sprintf("%s.cur.%d", *out, *shard), []byte(c.ID), 0o644)
+		if os.Getenv("GENSIM_TEST_CRASH_CELL") == c.ID {
+			// self-test of the restart path only
+			fmt.Fprintln(os.Stderr, "fatal error: stack overflow (simulated for the self-test of the restart path)")
+			os.Exit(2)
+		}
 		if err := os.Chdir(c.Dir); err != nil {
 			fmt.Fprintln(os.Stderr, err)
 			os.Exit(2)
@@ -447,6 +466,17 @@ func interleaved(c *Cell, tp *tape.Tape) (out []byte) {
 		}
 		if _, err := newFn(flipped(c)); err != nil {
 			return []byte("ERROR: second instance: " + err.Error())
+		}
+		// ... and a third one for a package of ANOTHER module, same formatter
+		// (what a Mocker learns about "its" module must stay its own)
+		if other, err := filepath.Abs(filepath.Join("..", "..", "m2", "q")); err == nil {
+			if _, serr := os.Stat(other); serr == nil {
+				oc := flipped(c) // (the last instance created before Mock differs in everything but the formatter)
+				oc.SrcDir, oc.PkgName = other, ""
+				if _, err := newFn(oc); err != nil {
+					return []byte("ERROR: instance for another module: " + err.Error())
+				}
+			}
 		}
 		var buf bytes.Buffer
 		if err := a.Mock(&buf, c.Names...); err != nil {
